@@ -12,13 +12,13 @@
        no_comment_tokens o = true,   r_final (html_tokenize SData o) = SData,
    and every output byte that originates from an untrusted leaf is consumed by the tokenizer in
    position class PText, PRcdata _ or PAttrValue _ _ (Qdq | Qsq).
-   This statement is NOT proved, and is false of the unchanged code (findings D1, D13, D41, D42, D43, see
+   This statement is NOT proved, and is false of the unchanged code (findings D1, D13, D41, D42, D43, D44, see
    props/C01_findings.v and findings/C01.json): it needs a simulation between the escaper's context
    and the tokenizer's state over STATIC template text, which the escaper knowingly does not have
    (tag names stop at an underscore, CR is not a tag-end separator, raw-text elements other than
    script and style are treated as ordinary elements, the comment opener inside a script element is
    not tracked, DOCTYPE declarations are passed through as text, a tag name is taken to end where its
-   text node ends, a template's output context is memoised wrongly when it is called twice).  It is DECIDED on the real engine's outputs by the oracle
+   text node ends, the end tag of a special element is also recognised inside its start tag, a template's output context is memoised wrongly when it is called twice).  It is DECIDED on the real engine's outputs by the oracle
    same_structure / no_comments / ends_in_data / placement_ok of spec/StructureSpec.v, whose meaning
    is fixed by C01_oracle_meaning below, on every generated (template, environment pair).
 
